@@ -126,6 +126,31 @@ CLAIMED["C20"] = dict(
     text="Proved for all inputs: uvarint-framed payloads decode back to payload and remainder; Int/Uint text decoders accept exactly the representable range; the canonical JSON of an object depends only on its key->content map (field order, duplicates, whitespace, escapes are irrelevant) and the rendering is injective, so sign bytes are equal iff (chain id, entropy, memo, canonical fee, canonical msg) are equal (strings: bytes < 0x80 exact, valid UTF-8 passed through); power-rank and time keys order like (power, inverted address) / the UTC time fields and are injective. Tied to the code by running SortJSON, StdSignBytes, amino's uvarint and the key builders against the extracted model every run. PARTIAL: go-amino's reflection-driven struct codec is not modelled - round trips of every type, re-encoding stability and crash-freedom on random/mutated bytes (also through CheckTx/DeliverTx) are decided by generated oracles on the implementation only.",
     note="Trusted: Coq kernel, extraction, OCaml/Go drivers, Go's time package for instant <-> UTC calendar fields (years 0-9999: the format's domain), encoding/json of the pinned toolchain (escapes \\b, \\f). Known finding F21: memos with invalid UTF-8 survive the wire format but collapse to U+FFFD in the sign bytes (different content, same sign bytes).",
     design_ref="§6 C20")
+# later additions, appended to the texts above
+XI = " Also checked every run (export/import stream): the state after the last Commit of every history goes through the real ExportGenesis -> JSON -> InitGenesis into two fresh instances; the projections this property speaks about must come back unchanged and its invariants must hold in the imported state."
+ADD = {
+ "C01": " Also: two fresh instances initialised from the same exported genesis must commit the same hash (found F26: InitGenesis wrote Go maps in map order).",
+ "C02": XI,
+ "C03": " Also proved: whatever key is used (attached to the signature or the one on the account's record, which a genesis file may have filled with somebody else's key) must be the declared signer's own (C03_foreign_key_rejected). The driver runs a transaction index (Tendermint's RPC server code over an in-memory map filled at every Commit): committed transactions are replayed, whatever their earlier result; several fee-multiplier entries in any order; multisig under-payment.",
+ "C04": " AND NOT A TOKEN MORE: in every history in which no send / DAO transfer / award names the pool's own address as the recipient the pool holds EXACTLY the recorded stake in every reachable state (C04_pool_holds_exactly_the_stake_all_histories, App/PoolExact.v)." + XI,
+ "C05": " The whole history as Tendermint sees it (C05_whole_history_as_seen_by_tendermint): starting from the module's record and applying the batch of every EndBlock, every batch of every history is applicable to the set Tendermint has at that moment and after every EndBlock that set equals the module's record; nothing but EndBlock's update touches the record (generic frame library App/Frames.v)." + XI,
+ "C06": " Legal transitions only (C06_only_legal_transitions): in every step of every history the status of every address is unchanged or changes by exactly one of - its own delivered stake (unknown/unstaked -> staked, amount >= minimum), its own begin-unstake (staked -> unstaking), release at an EndBlock (unstaking -> removed), forced unstake in a BeginBlock (any -> unstaked). Restart from an export: index and queue membership are functions of the live records and InitGenesis' rebuild gives them back (C06_restart_from_export_is_identity)." + XI,
+ "C07": " The whole effect of one slash in any state satisfying the pool invariant (C07_slash_exact): exactly D = min(amount, stake) - or the whole stake when the remainder falls below the minimum - leaves the validator's record, the pool and the supply; nobody else's balance and no other record changes; a non-positive amount changes nothing; a forced unstake burns the whole remainder.",
+ "C08": " Over whole histories (C08_counter_equals_stored_misses_all_histories): in every reachable state the missed counter of every validator equals the number of missed entries stored in its bit array; the ring buffer IS a sliding window for every window size and vote sequence and one vote is one ring step (or a reset when jailed)." + XI,
+ "C09": " After ANY update of the validator set a jailed or not-staked validator is absent from the set reported to Tendermint and every member has exactly the power of its stake (C09_jailed_absent_from_the_reported_set); a tombstone is never lifted over any history (C09_tombstoned_forever)." + XI,
+ "C10": " The whole award queue (C10_every_queued_award_is_minted_exactly_once): every address receives exactly what was queued for it, newly minted, the supply grows by exactly the sum, nobody else's balance moves, the queue is empty afterwards; awards queued for one address add up.",
+ "C11": " The oracle also demands that a statelessly invalid message is never charged and that a rejected transaction creates no account record; messages whose ValidateBasic panics (amounts beyond int64) must come back as error results.",
+ "C12": " Over whole histories (C12_retained_version_stays_readable): a version no pruning policy in force ever releases stays readable with exactly the content committed at it. The engine also mounts stores late, loads versions on private copies of the live store, reads through CacheMultiStoreWithVersion with writes pending, and tries failing LoadVersion on the live store.",
+ "C14": " Over whole histories, any number of substores (C14_query_after_any_history): once a height holds content c, after ANY sequence of writes, deletes, commits and pruning changes a query at that height answers with c's value or 'no such version', never with data of another height. Also checked through BaseApp: right after a restart a store query that names no height equals the query at the last committed height.",
+ "C17": " DAO funds over the whole block cycle (C17_dao_balance_falls_only_by_the_owners_message): the DAO balance never goes down except in a delivered DAO message of the DAO owner, and then by at most the stated amount. Read-only traffic (ACL queries right after a hand-over) must not change what the next governance message does." + XI,
+ "C16": " Stackings are also built with the stores' own CacheWrap / CacheWrapWithTrace and as a cache multistore branched from a cache multistore with tracing.",
+ "C18": " The driver also covers the int64-operand variants (AddRaw..ModRaw), comparisons, quotients a hair away from a multiple of 10^-18 on either side and of either sign, products at the 255-bit bound, and damage to the shared constants (ZeroInt, OneDec, ...) through decoders.",
+ "C19": " Keybase histories include updates to the empty passphrase followed by signing under the new and the old passphrase.",
+ "C20": " Also: integers that were never set go through JSON and back; wrong-length keys under a key-type tag must be refused; Dec text round trip proved for every value.",
+}
+for _k, _v in ADD.items():
+    CLAIMED[_k]["text"] = CLAIMED[_k]["text"] + _v
+
 REASON_NOT_YET = "check not built yet in this round (design in DESIGN.md §6); will be claimed once its model, theorems and correspondence engine exist"
 
 def main():
@@ -158,7 +183,7 @@ def main():
         "engines": [
             {"name": "num", "path": "harness/cmd/num", "serves_properties": ["C18", "C20"],
              "kind_free_text": "differential run of types.Int/Uint/Dec/Coins against the extracted Coq model and exact specs"},
-            {"name": "app", "path": "harness/cmd/app", "serves_properties": ["C02","C03","C04","C05","C06","C07","C08","C09","C10","C11","C17"],
+            {"name": "app", "path": "harness/cmd/app", "serves_properties": ["C01","C02","C03","C04","C05","C06","C07","C08","C09","C10","C11","C14","C17"],
              "kind_free_text": "real BaseApp+auth+pos+gov on MemDB driven through ABCI with an emulated Tendermint set; state decoded from raw stores after every op; compared with the extracted L1 model and checked by property oracles"},
             {"name": "ms", "path": "harness/cmd/ms", "serves_properties": ["C12","C13","C14","C01"],
              "kind_free_text": "rootmulti+iavl+transient over a crash-instrumented MemDB: write/commit/reopen/LoadVersion/query histories, crash after every write unit, uninterrupted twin"},
